@@ -212,10 +212,11 @@ def _run_single(role, cfg, item, timeout_s):
 
 
 def _items_of(cfg, gen):
-    """Items of a role: the single replay item, or the full enumeration."""
+    """Items of a role: the single replay item, or the full enumeration
+    (gen is a callable returning the iterable)."""
     if 'single_item' in cfg:
         return [(0, cfg['single_item'])]
-    return gen
+    return gen()
 
 
 def _merge_counts(stats, field):
@@ -399,7 +400,7 @@ def _match_setup(cfg):
 
 
 def _match_items(cfg):
-    return _items_of(cfg, enumerate(cfg['patterns']))
+    return _items_of(cfg, lambda: enumerate(cfg['patterns']))
 
 
 def _match_run(ctx, idx, p):
@@ -903,7 +904,7 @@ def _reg_items_gen(cfg):
 
 
 def _reg_items(cfg):
-    return _items_of(cfg, _reg_items_gen(cfg))
+    return _items_of(cfg, lambda: _reg_items_gen(cfg))
 
 
 def _reg_setup(cfg):
@@ -1456,7 +1457,7 @@ def _fuzz_setup(cfg):
 
 
 def _fuzz_items(cfg):
-    return _items_of(cfg, enumerate(cfg['items']))
+    return _items_of(cfg, lambda: enumerate(cfg['items']))
 
 
 _MAL_GROUP = {
@@ -2124,11 +2125,15 @@ _DISP_SEEDS = [
      ['msg', '/a', 'if1'], ['msg', '/a', 'arg2'], ['msg', '/a', 'bundle']],
     [['new', 'plain', '/a'], ['perm', 0], ['new', 'plain', '/a'],
      ['cmdperiod'], ['msg', '/a', 'base']],
+    # exact responders do not fire on a prefix / an extension of their path
+    [['new', 'plain', '/ab'], ['new', 'plain', '/a'], ['new', 'plain', '/a/b'],
+     ['msg', '/a', 'base'], ['msg', '/ab', 'base'], ['msg', '/a/b', 'base'],
+     ['msg', '/', 'base'], ['msg', '/abc', 'base']],
 ]
 
 
 def _disp_items(cfg):
-    return _items_of(cfg, _disp_items_gen(cfg))
+    return _items_of(cfg, lambda: _disp_items_gen(cfg))
 
 
 def _disp_run(ctx, idx, item):
@@ -2219,8 +2224,7 @@ def replay(case, rep):
         p, a = args
         res = _run_single('match1', {}, [p, a], 60)
         if res[0] != 'ok':
-            rep.error('replay match: %r' % (res,))
-            return None
+            raise RuntimeError('replay match: %r' % (res,))
         for v in res[1]:
             _report_match_violation(rep, *v)
         return not rep.violations
@@ -2230,7 +2234,7 @@ def replay(case, rep):
             for v in res[1]:
                 _report_generic(rep, v)
         else:
-            rep.error('replay registries: %r' % (res,))
+            raise RuntimeError('replay registries: %r' % (res,))
         return not rep.violations
     if func == 'dispatch':
         res = _run_single('dispatch', _rt_cfg(), args, 60)
@@ -2238,7 +2242,7 @@ def replay(case, rep):
             for v in res[1]:
                 _report_generic(rep, v)
         else:
-            rep.error('replay dispatch: %r' % (res,))
+            raise RuntimeError('replay dispatch: %r' % (res,))
         return not rep.violations
     if func == 'fuzz':
         dg = bytes.fromhex(args['bytes_hex'] if isinstance(args, dict) else args)
@@ -2250,10 +2254,9 @@ def replay(case, rep):
             for v in res[1]:
                 _report_generic(rep, v)
         else:
-            rep.error('replay fuzz: %r' % (res,))
+            raise RuntimeError('replay fuzz: %r' % (res,))
         return not rep.violations
-    rep.error('unknown replay %r' % (r,))
-    return None
+    raise RuntimeError('unknown replay %r' % (r,))
 
 
 def _match1_run(ctx, idx, item):
@@ -2265,7 +2268,7 @@ def _match1_run(ctx, idx, item):
 
 
 _ROLE_SETUP['match1'] = _match_setup
-_ROLE_ITEMS['match1'] = lambda cfg: _items_of(cfg, ())
+_ROLE_ITEMS['match1'] = lambda cfg: _items_of(cfg, tuple)
 _ROLE_RUN['match1'] = _match1_run
 
 
